@@ -122,6 +122,16 @@ class NasMal(Stream):
         for iei in [0x00, 0x01, 0x30, 0x7f, 0xff]:
             c = bytes([46, 5, 0, 194, 0x11, 0, 0, 6, 1, 2, 3, 4, 5, 6, iei, 41, 5, 1, 10, 0, 0, 1])
             cs.append({"pdu": (hdr + len2(c) + c).hex(), "kind": "unknown-iei"})
+        # every size of length field in front of the PDU address announcing far more than there is: a one-octet length of each
+        # value, two-octet lengths in the last 600 values below 65536 (where position + length passes 16 bits) and a few others
+        fixed = bytes([46, 5, 0, 194, 0x11, 0, 0, 6, 1, 2, 3, 4, 5, 6])
+        addr = bytes([41, 5, 1, 10, 0, 0, 1])
+        for L in range(256):
+            c = fixed + bytes([rng.choice([0x22, 0x25]), L]) + rng.bytes(rng.below(4)) + addr
+            cs.append({"pdu": (hdr + len2(c) + c).hex(), "kind": "length-octet"})
+        for L in list(range(65536 - 600, 65536)) + [256, 4096, 32767, 32768, 49152, 65000]:
+            c = fixed + bytes([rng.choice([0x7b, 0x79, 0x75, 0x78]), L >> 8, L & 255]) + rng.bytes(rng.below(4)) + (addr if L % 2 else b"")
+            cs.append({"pdu": (hdr + len2(c) + c).hex(), "kind": "length-two-octets"})
         for i in range(n):
             s = rng.choice(seeds)
             k = rng.below(5)
